@@ -233,8 +233,30 @@ def gen_gfa1_only_ops(rng):
     return lines
 
 
+def gen_no_counterpart(rng):
+    """documents with a record whose identifier / sequence cannot be written in the other version."""
+    if rng.random() < 0.6:
+        bad = rng.choice(["a+,b", "*x", "=y", "x-,y", "p,q"])
+        seq = rng.choice(["*", "ACGT", "AC-GT", "12", "a*b"])
+        if rng.random() < 0.4:
+            bad, seq = "ok1", rng.choice(["AC-GT", "12", "a*b", "A,C"])
+        lines = ["S\t%s\t%d\t%s" % (bad, len(seq) if seq != "*" else 9, seq), "S\tz\t8\t*"]
+        if rng.random() < 0.6:
+            lines.append("E\te1\t%s+\tz-\t0\t3\t5\t8$\t3M" % bad)
+        if rng.random() < 0.3:
+            lines.append("O\tpth\t%s+ z-" % bad)
+        return "gfa2", lines
+    lines = ["S\ta\t*\tLN:i:9", "S\tb\t*\tLN:i:9",
+             "%s\tID:Z:%s" % (rng.choice(["L\ta\t+\tb\t-\t3M", "C\ta\t+\tb\t-\t1\t3M"]), rng.choice(["my link", "a b", " x"]))]
+    return "gfa1", lines
+
+
 def cases(rng, tier, shard, nshards):
     while True:
+        if rng.random() < 0.03:
+            v, l = gen_no_counterpart(rng)
+            yield {"version": v, "k": "no-counterpart", "lines": l, "vlevel": rng.choice([0, 1, 2, 3])}
+            continue
         if rng.random() < 0.08:
             l = gen_gfa1_only_ops(rng)
             if any(x[0] in "LC" and any(ch in x.split("\t")[5 if x[0] == "L" else 6] for ch in "=XNSH") for x in l):
@@ -304,7 +326,33 @@ def run_gfa1_only_ops(case, ctx):
     ctx.sample({"version": "gfa1", "lines": lines, "kind": "gfa1-only-ops"})
 
 
+def run_no_counterpart(case, ctx):
+    lines, vlevel, v = case["lines"], case["vlevel"], case["version"]
+    r = build(ctx, lines, v, vlevel)
+    if not r.ok:
+        ctx.violation("valid-document-refused/%s" % r.cls(), "%r: %s" % (lines, str(r.exc)[:200]), prop="C01")
+        return
+    g = r.value
+    target = "gfa1" if v == "gfa2" else "gfa2"
+    ctx.nontriv(lines)
+    c = call(ctx, "Gfa.to_%s_s" % target, g.to_gfa1_s if target == "gfa1" else g.to_gfa2_s)
+    ctx.count("no_counterpart_conversions")
+    if not c.ok:
+        ctx.count("no_counterpart_refused")
+        return
+    out = [l for l in S.split_doc(c.value) if l]
+    for l in out:
+        vd = S.recognise_line(l, target)
+        if vd[0] == S.INVALID:
+            ctx.violation("converted-text-invalid/no-counterpart/%s" % l.split("\t")[0], "to_%s_s of %r (level %d) gives %r (%s)"
+                          % (target, lines, vlevel, l, vd[1]))
+            return
+    ctx.sample({"version": v, "lines": lines, "kind": "no-counterpart", "converted": out})
+
+
 def run(case, ctx):
+    if case.get("k") == "no-counterpart":
+        return run_no_counterpart(case, ctx)
     if case.get("k") == "gfa1-only-ops":
         return run_gfa1_only_ops(case, ctx)
     if case["version"] == "gfa1":
